@@ -198,6 +198,10 @@ template <typename T, int C> struct DA {
 			bool ok = b.count() == C; for (int i = 0; ok && i < C / 2; ++i) ok = b[i] == mk<T>(i); for (int i = 0; ok && i < (C + 1) / 2; ++i) ok = b[C / 2 + i] == mk<T>(i + 50);
 			if (!ok) violation("dynamic-append-array", rp, "operator+=(array)");
 		}
+		{ // assigning an array to itself (through an alias) leaves it as it is; assigning another array copies it
+			A b = a; A& alias = b; b = alias; ++me().cases; bool ok = b.count() == C; for (int j = 0; ok && j < C; ++j) ok = b[j] == mk<T>(j);
+			if (!ok) violation("dynamic-self-assignment", rp, "a = a changed the array (count %d of %d)", static_cast<int>(b.count()), C);
+			A c2; c2 = a; ok = c2.count() == C; for (int j = 0; ok && j < C; ++j) ok = c2[j] == mk<T>(j); if (!ok) violation("dynamic-assignment", rp, "b = a does not copy the array"); }
 		if (!ga.intact()) violation("dynamic-wrote-outside", rp, "filling the array to capacity wrote outside it");
 	}
 };
